@@ -1,7 +1,81 @@
 import ConfModel.Driver.Common
+import ConfModel.Model.Expand
+import ConfModel.Spec.Padding
 namespace ConfModel.Driver.C19
-open Lean ConfModel.Driver
+open Lean ConfModel.Driver ConfModel.Expand ConfModel.Padding
 
-def handle : Handler := fun op _inp _impl => bad ("C19: unknown op " ++ op)
+/-- error class as the harness reports it (`negLen` is worded "can't pad ..." too) -/
+def clsOf : Out → String
+  | .ok _ => "ok"
+  | .range => "range"
+  | .negLen => "cantPad"
+  | .cantPad _ => "cantPad"
+  | .panic => "panic"
+
+structure Dir where
+  r : Nat
+  l0 : Nat
+  off : Option Int
+
+/-- `expandRequestData` over the directives: stops at the first error; messages before it
+keep their new padding, the failing one and those after it are untouched -/
+def run (limit : Nat) : List Dir → String × List Nat
+  | [] => ("ok", [])
+  | d :: ds =>
+    match d.off with
+    | none => let (c, ls) := run limit ds; (c, d.l0 :: ls)
+    | some off =>
+      match expand limit d.r d.l0 off with
+      | .ok L => let (c, ls) := run limit ds; (c, L :: ls)
+      | o => (clsOf o, d.l0 :: ds.map (·.l0))
+
+def handle : Handler := fun op inp impl =>
+  match op with
+  | "expand" =>
+    let cls := str (field impl "class")
+    if cls == "panic" then
+      { agree := false, holds := false, cls := "panic",
+        why := "panic in expandRequestData (neither padded nor an error)" } else
+    let limit := nat (field impl "limit")
+    let ims := arr (field impl "msgs")
+    let inMsgs := arr (field inp "msgs")
+    let extra := int (field inp "extra")
+    let nDir : Int := (inMsgs.length : Int) + extra
+    let offs : List (Option Int) := inMsgs.zipIdx.map (fun (m, i) =>
+      if (i : Int) < nDir && !(isNull (field m "off")) then some (int (field m "off")) else none)
+    let dirs : List Dir := (ims.zip offs).map (fun (o, off) => ⟨nat (field o "r"), nat (field o "l0"), off⟩)
+    let (mCls, mLs) : String × List Nat :=
+      if nDir > inMsgs.length then ("count", dirs.map (·.l0)) else run limit dirs
+    let iLs := ims.map (fun o => nat (field o "l"))
+    let rest := bool (field impl "restEqual")
+    -- the property: accepted => every expanded message has exactly limit+off bytes and only
+    -- its padding field changed, the others are untouched; otherwise an error was returned
+    let perMsg := (ims.zip offs).all (fun (o, off) =>
+      match off with
+      | some off => holdsExpand limit off true false (nat (field o "size")) (bool (field o "others"))
+      | none => bool (field o "unchanged"))
+    let holds := if cls == "ok" then perMsg && rest else true
+    let zero := ims.all (fun o => bool (field o "zeroPad"))
+    { agree := cls == mCls && iLs == mLs && zero && ims.length == inMsgs.length,
+      holds := holds,
+      nontrivial := offs.any (·.isSome),
+      cls := cls,
+      model := Json.mkObj [("class", mCls), ("l", toJson mLs)],
+      why := if holds then "" else
+        s!"expand: accepted but sizes {ims.map (fun o => nat (field o "size"))} for offsets {offs.map (·.getD 0)} at limit {limit}, others/unchanged/rest flags {ims.map (fun o => bool (field o "others"))} {ims.map (fun o => bool (field o "unchanged"))} {rest}" }
+  | "sharp" =>
+    -- end to end, implementation half only: the real reference server / client enforce the
+    -- limit through connect-go; the predicate is the property's sentence itself
+    let limit := nat (field impl "limit")
+    let size := nat (field impl "size")
+    let outcome := str (field impl "outcome")
+    let want := if accepts limit size then "ok" else "resource_exhausted"
+    let holds := outcome == want && size > 0
+    { agree := holds, holds := holds, nontrivial := true,
+      cls := str (field inp "side") ++ ":" ++ outcome,
+      model := Json.mkObj [("outcome", want)],
+      why := if holds then "" else
+        s!"limit not sharp: message of {size} bytes against limit {limit} gave {outcome} ({str (field impl "detail")}), want {want}" }
+  | _ => bad ("unknown op " ++ op)
 
 end ConfModel.Driver.C19
